@@ -7,172 +7,121 @@
     [run1 dh r] a whole run of [r] from a fresh context; [history dh rs] runs one after the
     other in one process; [sched_run step dh ps sch] threads [ps t] executing the schedule
     [sch] — an ARBITRARY merge of their operation lists, any length, any number of threads.
+    All statements are for every operation list, of any length, with no side condition.
 
     Level: proof on the model, PARTIAL — CPython-level atomicity (GIL) of one dict/list
     operation, the logging module and third-party step modules are not modelled; steps are
     the unit of interleaving.
 
-    FINDING (C12_no_def_mutation_refuted): the full statement
-
-        forall dh r, closed dh = true -> fst (run1 dh r) = dh
-
-    is FALSE of the faithful model and of the code: Step.set_step_input_context does
-    context.update(in), so a container given under `in` IS the cached definition's object;
-    append / contextmerge / default / py (and add) then change the definition in place and
-    the next run of the same pipeline starts from a different definition.  The proved version
-    carries the excluding hypothesis [disciplined]: a syntactic, decidable check of the run's
-    operations — no in-place operation targets a key that may be bound to a definition object
-    (bound by `in` / configvars, or a by-reference copy ({k:ff}, !py k, contextcopy, foreach
-    element) of such a key), and no such by-reference value is stored inside a container. *)
+    History: before pypyr commit d9572b0 Step.set_step_input_context did context.update(in),
+    so a container given under `in` WAS the cached definition's object and append /
+    contextmerge / default / py / add changed the definition in place ([step_aliasing];
+    Example C12_why_the_repair_was_needed).  [step] is the repaired code: the injection is a
+    deep copy.  The invariant behind every theorem: no context key and no object of a run's
+    own heap ever points into the definition heap (AliasProofs.pinv with the empty taint set). *)
 From Coq Require Import List String ZArith.
 From PV Require Import Alias AliasProofs.
 Import ListNotations.
 Open Scope string_scope.
-
-(** (1) the defect: a definition list injected by `in`, appended to in place.  The definition
-    heap differs after the run, and the SAME run made again yields a different result. *)
-Theorem C12_no_def_mutation_refuted :
-  exists defs r, let dh := fst (load defs []) in
-    closed dh = true /\ fst (run1 dh r) <> dh /\
-    snd (run1 (fst (run1 dh r)) r) <> snd (run1 dh r).
-Proof. exact no_def_mutation_refuted. Qed.
-Print Assumptions C12_no_def_mutation_refuted.
 
 (** what the yaml loader builds holds no pointer into any run's heap *)
 Theorem C12_loaded_definitions_closed : forall defs, closed (fst (load defs [])) = true.
 Proof. exact load_closed. Qed.
 Print Assumptions C12_loaded_definitions_closed.
 
-(** (2) every disciplined run, of any length, leaves the definition heap exactly as it was ... *)
-Theorem C12_no_def_mutation_partial : forall dh r,
-  closed dh = true -> disciplined (r_ops r) = true -> fst (run1 dh r) = dh.
-Proof. exact disciplined_run_unchanged. Qed.
-Print Assumptions C12_no_def_mutation_partial.
+(** (1) every run — any operation list — leaves the definition heap exactly as it was ... *)
+Theorem C12_no_def_mutation : forall dh r, closed dh = true -> fst (run1 dh r) = dh.
+Proof. exact run_unchanged. Qed.
+Print Assumptions C12_no_def_mutation.
 
 (** ... after EVERY operation of the run, not only at its end ... *)
-Theorem C12_no_def_mutation_every_step : forall dh r,
-  disciplined (r_ops r) = true -> read_only step dh (start r) (r_ops r).
-Proof. exact disciplined_run_read_only. Qed.
+Theorem C12_no_def_mutation_every_step : forall dh r, read_only step dh (start r) (r_ops r).
+Proof. exact run_read_only. Qed.
 Print Assumptions C12_no_def_mutation_every_step.
 
-(** ... and so does any number of such runs, each of which yields what it yields alone *)
-Theorem C12_history_unchanged : forall rs dh,
-  closed dh = true -> Forall (fun r => disciplined (r_ops r) = true) rs ->
+(** ... and so does any number of runs of any pipelines in any order, each of which yields
+    exactly what it yields when it is the only run ever made *)
+Theorem C12_history_unchanged : forall rs dh, closed dh = true ->
   history dh rs = (dh, map (fun r => snd (run1 dh r)) rs).
-Proof. exact disciplined_history. Qed.
+Proof. exact history_all. Qed.
 Print Assumptions C12_history_unchanged.
 
-(** (3) if no run of a history changes the definition heap, then run j of a pipeline from an
-    equal initial context yields exactly what run i of it yielded — whatever other runs,
-    how many and in which order, happened in between *)
-Theorem C12_rerun_equal : forall rs dh i j r,
-  Forall (fun r => fst (run1 dh r) = dh) rs ->
+(** (2) run j of a pipeline from an equal initial context yields exactly what run i of it
+    yielded (and what it yields alone) — whatever other runs, how many and in which order,
+    happened before or in between *)
+Theorem C12_rerun_equal : forall rs dh i j r, closed dh = true ->
   nth_error rs i = Some r -> nth_error rs j = Some r ->
   nth_error (snd (history dh rs)) i = Some (snd (run1 dh r)) /\
   nth_error (snd (history dh rs)) j = Some (snd (run1 dh r)).
-Proof. exact rerun_equal. Qed.
+Proof. exact rerun_all. Qed.
 Print Assumptions C12_rerun_equal.
 
-Theorem C12_rerun_equal_disciplined : forall rs dh i j r,
-  closed dh = true -> Forall (fun r => disciplined (r_ops r) = true) rs ->
-  nth_error rs i = Some r -> nth_error rs j = Some r ->
-  nth_error (snd (history dh rs)) i = nth_error (snd (history dh rs)) j.
-Proof. exact disciplined_rerun_equal. Qed.
-Print Assumptions C12_rerun_equal_disciplined.
-
-(** (4) interleaving, for ANY machine with a shared part and per-thread private parts: if each
+(** (3) interleaving, for ANY machine with a shared part and per-thread private parts: if each
     thread, run alone from [s], leaves the shared part equal to [s] at each of its steps, then
     under EVERY schedule the shared part is untouched and each thread ends in the private
     state it reaches alone *)
-Theorem C12_interleaving : forall (S Pv O : Type) (stp : S -> Pv -> O -> S * Pv) sch s ps,
+Theorem C12_interleaving_generic : forall (S Pv O : Type) (stp : S -> Pv -> O -> S * Pv) sch s ps,
   (forall t, read_only stp s (ps t) (proj t sch)) ->
   fst (sched_run stp s ps sch) = s /\
   forall t, snd (sched_run stp s ps sch) t = snd (exec stp s (ps t) (proj t sch)).
 Proof. exact @interleaving. Qed.
-Print Assumptions C12_interleaving.
+Print Assumptions C12_interleaving_generic.
 
-(** ... instantiated: disciplined runs on concurrent threads, each with its own context *)
-Theorem C12_interleaving_disciplined : forall dh (sch : list (nat * op)) (inits : nat -> list (string * tree)),
-  (forall t, disciplined (proj t sch) = true) ->
+(** ... instantiated: any number of runs on concurrent threads, each with its own context,
+    any operation lists, EVERY schedule: the definition heap is untouched and each run ends
+    in the private state (context, objects, trace, outcome) it reaches when run alone *)
+Theorem C12_interleaving : forall dh (sch : list (nat * op)) (inits : nat -> list (string * tree)),
   let ps := fun t => init_ctx (inits t) empty_priv in
   fst (sched_run step dh ps sch) = dh /\
   forall t, snd (sched_run step dh ps sch) t = snd (run dh (ps t) (proj t sch)).
-Proof. exact disciplined_interleaving. Qed.
-Print Assumptions C12_interleaving_disciplined.
-
-(** (5) the repair evaluated on the model.  [step_fixed] is [step] with the injection done as
-    context.update(copy.deepcopy(in)) (likewise config.vars in pypyr.steps.configvars).  For that
-    machine the FULL statements hold, for every operation list, with no discipline hypothesis:
-    after the repair these replace (1)-(4) with [step := step_fixed]. *)
-Theorem C12_no_def_mutation_after_repair : forall dh r,
-  closed dh = true -> fst (run1_with step_fixed dh r) = dh.
-Proof. exact fixed_run_unchanged. Qed.
-Print Assumptions C12_no_def_mutation_after_repair.
-
-Theorem C12_interleaving_after_repair : forall dh (sch : list (nat * op)) (inits : nat -> list (string * tree)),
-  let ps := fun t => init_ctx (inits t) empty_priv in
-  fst (sched_run step_fixed dh ps sch) = dh /\
-  forall t, snd (sched_run step_fixed dh ps sch) t = snd (exec step_fixed dh (ps t) (proj t sch)).
-Proof. exact fixed_interleaving. Qed.
-Print Assumptions C12_interleaving_after_repair.
+Proof. exact interleaving_all. Qed.
+Print Assumptions C12_interleaving.
 
 (* ---------------------------------------------------------------- non-vacuity *)
-(* `in: {k: [1, 2]}`, set c = '{k}' (a rebuilt copy), append 3 to c, keep a by-reference
-   alias r of the definition object without touching it *)
-Definition good_defs : list tree := [TList [TInt 1; TInt 2]].
-Definition good_run : runspec :=
+(* `in: {k: [1, 2]}`, append 3 to k in place; keep a by-reference alias; merge into it *)
+Definition defs0 : list tree := [TList [TInt 1; TInt 2]].
+Definition run_a : runspec :=
   mkrun [("z", TList [TInt 0])]
-        [InjectIn "k" (CPtr (D 0)); SetFmt "c" (TRef RCopy "k"); SetFmt "r" (TRef RFlat "k");
-         AppendKey "c" (TInt 3); PyAppend "z" 9; Merge [("c", TList [TInt 4])]; Unset "k"; Probe].
-Definition other_run : runspec :=
-  mkrun [] [InjectIn "k" (CPtr (D 0)); SetFmt "m" (TDict [("x", TRef RCopy "k")]);
-            Defaults [("m", TDict [("y", TInt 1)])]; Probe].
+        [InjectIn "k" (CPtr (D 0)); AppendKey "k" (TInt 3); SetFmt "r" (TRef RFlat "k");
+         PyAppend "r" 9; Merge [("r", TList [TInt 4])]; SetFmt "c" (TRef RCopy "k"); Unset "k"; Probe].
+Definition run_b : runspec :=
+  mkrun [] [InjectIn "k" (CPtr (D 0)); SetFmt "m" (TDict [("x", TRef RPy "k")]);
+            Defaults [("m", TDict [("y", TInt 1)])]; PyAppend "k" 7; Probe].
 
-Example C12_partial_nonvacuous :
-  let dh := fst (load good_defs []) in
-  disciplined (r_ops good_run) = true /\
-  o_final (snd (run1 dh good_run)) =
-    [("z", TList [TInt 0; TInt 9]); ("c", TList [TInt 1; TInt 2; TInt 3; TInt 4]);
-     ("r", TList [TInt 1; TInt 2])] /\
-  fst (run1 dh good_run) = dh.
+Example C12_no_def_mutation_nonvacuous :
+  let dh := fst (load defs0 []) in
+  o_final (snd (run1 dh run_a)) =
+    [("z", TList [TInt 0]); ("r", TList [TInt 1; TInt 2; TInt 3; TInt 9; TInt 4]);
+     ("c", TList [TInt 1; TInt 2; TInt 3; TInt 9; TInt 4])] /\
+  fst (run1 dh run_a) = dh.
 Proof. vm_compute. repeat split. Qed.
 
-(* the refuted run is (of course) rejected by the discipline *)
-Example C12_refuted_run_not_disciplined : disciplined (r_ops witness_run) = false.
-Proof. reflexivity. Qed.
-
 Example C12_rerun_nonvacuous :
-  let dh := fst (load good_defs []) in
-  let rs := [good_run; other_run; good_run; other_run; good_run] in
-  Forall (fun r => disciplined (r_ops r) = true) rs /\
+  let dh := fst (load defs0 []) in
+  let rs := [run_a; run_b; run_a; run_b; run_a] in
   nth_error (snd (history dh rs)) 0 = nth_error (snd (history dh rs)) 4 /\
   nth_error (snd (history dh rs)) 0 <> nth_error (snd (history dh rs)) 1.
-Proof.
-  cbv zeta. split; [repeat constructor|]. split; [vm_compute; reflexivity|].
-  vm_compute. intro H. discriminate H.
-Qed.
+Proof. cbv zeta. split; [vm_compute; reflexivity|]. vm_compute. intro H. discriminate H. Qed.
 
 Example C12_interleaving_nonvacuous :
-  let dh := fst (load good_defs []) in
+  let dh := fst (load defs0 []) in
   let sch := [(0, InjectIn "k" (CPtr (D 0))); (1, InjectIn "k" (CPtr (D 0)));
-              (1, SetFmt "m" (TRef RCopy "k")); (0, SetFmt "c" (TRef RCopy "k"));
-              (0, AppendKey "c" (TInt 3)); (1, PyAppend "m" 7); (0, Probe); (1, Probe)]%nat in
-  (forall t, disciplined (proj t sch) = true) /\
+              (1, PyAppend "k" 7); (0, AppendKey "k" (TInt 3)); (0, Probe); (1, Probe)]%nat in
+  fst (sched_run step dh (fun _ => empty_priv) sch) = dh /\
   o_final (result_of dh (snd (sched_run step dh (fun _ => empty_priv) sch) 0%nat)) =
-    [("k", TList [TInt 1; TInt 2]); ("c", TList [TInt 1; TInt 2; TInt 3])] /\
+    [("k", TList [TInt 1; TInt 2; TInt 3])] /\
   o_final (result_of dh (snd (sched_run step dh (fun _ => empty_priv) sch) 1%nat)) =
-    [("k", TList [TInt 1; TInt 2]); ("m", TList [TInt 1; TInt 2; TInt 7])].
-Proof.
-  cbv zeta. split.
-  - intro t. destruct t as [|[|t]]; reflexivity.
-  - vm_compute. split; reflexivity.
-Qed.
+    [("k", TList [TInt 1; TInt 2; TInt 7])].
+Proof. vm_compute. repeat split. Qed.
 
-(* the witness of (1) is harmless on the repaired machine, and still does its work *)
-Example C12_after_repair_nonvacuous :
-  let dh := fst (load witness_defs []) in
-  fst (run1_with step_fixed dh witness_run) = dh /\
-  o_final (snd (run1_with step_fixed dh witness_run)) = [("k", TList [TInt 1; TInt 2; TInt 3])] /\
-  snd (run1_with step_fixed (fst (run1_with step_fixed dh witness_run)) witness_run)
-    = snd (run1_with step_fixed dh witness_run).
+(* HISTORICAL witness (not a property of the current code): on the pre-d9572b0 machine
+   [step_aliasing] the run `in: {k: [1, 2]}` + append 3 changed the definition heap, and the
+   same run made again saw [1, 2, 3] instead of [1, 2]; on [step] it does not. *)
+Definition witness_run : runspec := mkrun [] [InjectIn "k" (CPtr (D 0)); AppendKey "k" (TInt 3)].
+Example C12_why_the_repair_was_needed :
+  let dh := fst (load defs0 []) in
+  fst (exec step_aliasing dh (start witness_run) (r_ops witness_run)) = [OList [CInt 1; CInt 2; CInt 3]] /\
+  dh = [OList [CInt 1; CInt 2]] /\
+  disciplined (r_ops witness_run) = false /\
+  fst (run1 dh witness_run) = dh.
 Proof. vm_compute. repeat split. Qed.
